@@ -193,3 +193,53 @@ Proof.
   destruct (common_reachable_subset _ _ _ _ _ E fr ft Hin) as [A B]. auto.
 Qed.
 End Pick.
+
+(* ---- compute_suggested_criteria: what `certify` pre-selects for a delta ---- *)
+Lemma suggested_inner_spec (rs : list search_result) (from : ver) (to : N) (l : list N) : forall acc c,
+  cs_has c (fold_left (fun acc c => match nth (N.to_nat c) rs SFuel with
+                                    | SErr fr ft => if mem_ver from fr && mem_ver (Some to) ft then cs_set c acc else acc
+                                    | _ => acc end) l acc) = true ->
+  cs_has c acc = true \/
+  (In c l /\ exists fr ft, nth (N.to_nat c) rs SFuel = SErr fr ft /\ In from fr /\ In (Some to) ft).
+Proof.
+  induction l as [|c0 l IH]; intros acc c H; cbn [fold_left] in H; [left; exact H|].
+  apply IH in H. destruct H as [H|[Hin H]]; [|right; split; [right; exact Hin|exact H]].
+  destruct (nth (N.to_nat c0) rs SFuel) as [p|fr ft|] eqn:E; [left; exact H| |left; exact H].
+  destruct (mem_ver from fr && mem_ver (Some to) ft) eqn:M; [|left; exact H].
+  rewrite cs_has_set in H. apply orb_prop in H. destruct H as [H|H]; [|left; exact H].
+  apply N.eqb_eq in H. subst c0. right. split; [left; reflexivity|]. exists fr, ft. split; [exact E|].
+  apply andb_prop in M. destruct M as [M1 M2]. apply mem_ver_In in M1, M2. auto.
+Qed.
+
+(* every criterion pre-selected for certifying (from -> to) of crate [name] is one that some package of that name
+   currently fails, with [from] reachable from the root and the target reachable from [to] for exactly that criterion *)
+Theorem suggested_criteria_spec (r : report) (name : N) (from : ver) (to : N) c :
+  cs_has c (suggested_criteria r name from to) = true ->
+  exists i cf rs fr ft, In (i, cf) (failures_of r) /\ pk_name (get_pkg (g_pkgs (r_graph r)) i) = name /\
+    po_result (nth i (r_outcomes r) {| po_result := PFirstParty; po_failures := 0; po_needed_exemptions := false; po_directly_exempted := false |}) = PSearched rs /\
+    cs_has c cf = true /\ nth (N.to_nat c) rs SFuel = SErr fr ft /\ In from fr /\ In (Some to) ft.
+Proof.
+  unfold suggested_criteria.
+  assert (G : forall l acc, (forall x, In x l -> In x (failures_of r)) ->
+     cs_has c (fold_left (fun acc '(i, cf) =>
+        if N.eqb (pk_name (get_pkg (g_pkgs (r_graph r)) i)) name then
+          match po_result (nth i (r_outcomes r) {| po_result := PFirstParty; po_failures := 0; po_needed_exemptions := false; po_directly_exempted := false |}) with
+          | PSearched rs =>
+              fold_left (fun acc c => match nth (N.to_nat c) rs SFuel with
+                                      | SErr fr ft => if mem_ver from fr && mem_ver (Some to) ft then cs_set c acc else acc
+                                      | _ => acc end) (cs_indices (length rs) cf) acc
+          | _ => acc
+          end
+        else acc) l acc) = true ->
+     cs_has c acc = true \/
+     exists i cf rs fr ft, In (i, cf) (failures_of r) /\ pk_name (get_pkg (g_pkgs (r_graph r)) i) = name /\
+       po_result (nth i (r_outcomes r) {| po_result := PFirstParty; po_failures := 0; po_needed_exemptions := false; po_directly_exempted := false |}) = PSearched rs /\
+       cs_has c cf = true /\ nth (N.to_nat c) rs SFuel = SErr fr ft /\ In from fr /\ In (Some to) ft).
+  { induction l as [|[i cf] l IH]; intros acc Hl H; cbn [fold_left] in H; [left; exact H|].
+    apply IH in H; [|intros x Hx; apply Hl; right; exact Hx]. destruct H as [H|H]; [|right; exact H].
+    destruct (N.eqb (pk_name (get_pkg (g_pkgs (r_graph r)) i)) name) eqn:En; [|left; exact H]. apply N.eqb_eq in En.
+    destruct (po_result (nth i (r_outcomes r) _)) as [|cs|rs] eqn:Er; [left; exact H|left; exact H|].
+    apply suggested_inner_spec in H. destruct H as [H|[Hin [fr [ft [E [Hf Ht]]]]]]; [left; exact H|right].
+    apply in_cs_indices in Hin. exists i, cf, rs, fr, ft. repeat split; auto. apply Hl. left. reflexivity. tauto. }
+  intros H. apply G in H; [|auto]. destruct H as [H|H]; [rewrite cs_has_empty in H; discriminate|exact H].
+Qed.
